@@ -294,8 +294,12 @@ func famC19(r *Run) {
 			} else if stdout != string(want)+"\n" {
 				r.violate("G-cli", expr, doc, "jpgo's output is not the JSON serialisation of the library's result", desc+" want="+string(want))
 			} else {
-				var back interface{}
-				if err := json.Unmarshal([]byte(stdout), &back); err != nil || !jsonEqual(back, lib.Value) {
+				// the printed text decodes to what the serialisation of the library's result decodes to
+				// (a raw string with bytes that are not UTF-8 is serialised with U+FFFD by encoding/json,
+				// in jpgo and here alike: the comparison is between the two decoded texts)
+				var back, wantBack interface{}
+				werr := json.Unmarshal(want, &wantBack)
+				if err := json.Unmarshal([]byte(stdout), &back); err != nil || werr != nil || !jsonEqual(back, wantBack) {
 					r.violate("G-cli", expr, doc, "jpgo's output does not decode to the library's result", desc)
 				}
 			}
